@@ -1137,3 +1137,52 @@ def default_fragment_module(idx, entry):
         format!("{{\\"id\\":%d,\\"ev\\":\\"same_as_twin\\",\\"equal\\":{},\\"got\\":\\"{:?}\\",\\"want\\":\\"{:?}\\"}}\n", got == plain(), got, plain())
     }
 }""" % (idx, head, head, head, idx)
+
+
+def debug_wrapped_tail_module(idx, entry):
+    """structs whose LAST field is a wrapper with several type arguments, the last of which may be unsized (`Tagged<u16, G>`, `G: ?Sized`;
+    `Tagged<bool, str>`); instantiated with sized arguments every formatter flag must give what the std-derived twin gives, and the
+    unsized instantiations must type-check"""
+    head = derive_head(["Debug"], entry)
+    items = ("HEAD pub struct A<G: ?::core::marker::Sized> { pub n: u8, pub body: ::dx_support::Tagged<u16, G> }\n"
+             "        HEAD pub struct B(pub u8, pub ::dx_support::Tagged<bool, str>);\n"
+             "        HEAD pub struct C<K, V: ?::core::marker::Sized>(pub ::dx_support::Tagged<K, ::dx_support::Tagged<K, V>>);\n"
+             "        pub fn show_a(x: &A<str>) -> String { format!(\"{:?}\", x) }\n"
+             "        pub fn show_b(x: &B) -> String { format!(\"{:#?}\", x) }\n"
+             "        pub fn show_c(x: &C<u8, [u8]>) -> String { format!(\"{:?}\", x) }")
+    flags = ", ".join("format!(\"%s\", $x)" % f for f in FLAGS)
+    return """pub mod m%d {
+    pub mod dx {
+        %s
+    }
+    pub mod sd {
+        %s
+    }
+    macro_rules! all { ($x:expr) => { vec![%s] } }
+    pub fn run() -> String {
+        let a1 = all!(dx::A::<i32> { n: 1, body: ::dx_support::Tagged(7u16, -3i32) }); let a2 = all!(sd::A::<i32> { n: 1, body: ::dx_support::Tagged(7u16, -3i32) });
+        let c1 = all!(dx::C::<u8, f64>(::dx_support::Tagged(1u8, ::dx_support::Tagged(2u8, 1.5f64)))); let c2 = all!(sd::C::<u8, f64>(::dx_support::Tagged(1u8, ::dx_support::Tagged(2u8, 1.5f64))));
+        format!("{{\\"id\\":%d,\\"ev\\":\\"same_as_twin\\",\\"equal\\":{}}}\\n", a1 == a2 && c1 == c2)
+    }
+}""" % (idx, items.replace("HEAD", head), items.replace("HEAD", "#[derive(Debug)]"), flags, idx)
+
+
+def default_shadow_module(idx, entry):
+    """default expressions that call functions named like EARLIER fields of the same item: the expressions are the user's and keep
+    meaning the user's functions"""
+    head = derive_head(["Default"], entry)
+    return """pub mod m%d {
+    use ::core::cmp::max;
+    fn scale(x: u32) -> u32 { x * 2 }
+    fn first() -> u8 { 9 }
+    %s pub struct S { #[default(|x| x + 1)] pub scale: fn(u32) -> u32, #[default(scale(10))] pub size: u32, pub first: u8, #[default(first())] pub second: u8 }
+    %s pub enum E { #[default] V { max: u32, #[default(max(640u32, 480))] width: u32 }, W }
+    %s pub struct T3(#[default(3)] pub u8, #[default(scale(2) as u8)] pub u8);
+    pub fn run() -> String {
+        let s = <S as ::core::default::Default>::default();
+        let w = match <E as ::core::default::Default>::default() { E::V { max: _, width } => width, E::W => 0 };
+        let t = <T3 as ::core::default::Default>::default();
+        let got = (s.size, (s.scale)(1), s.first, s.second, w, t.0, t.1);
+        format!("{{\\"id\\":%d,\\"ev\\":\\"same_as_twin\\",\\"equal\\":{},\\"got\\":\\"{:?}\\",\\"want\\":\\"(20, 2, 0, 9, 640, 3, 4)\\"}}\\n", got == (20, 2, 0, 9, 640, 3, 4), got)
+    }
+}""" % (idx, head, head, head, idx)
